@@ -133,7 +133,7 @@ def check_combo(chk, c, seed_, recover):
         res = optimize(scheme, verbose=False, raise_exception=True)
         for lab in labels:
             a, b = res.optimized_parameters.get(lab).value, true.get(lab).value
-            if abs(a - b) > 1e-6 * max(1.0, abs(b)):
+            if not (abs(a - b) <= 1e-6 * max(1.0, abs(b))):      # NaN-safe
                 chk.violation(f"Combos[optimiser moves away from truth]: {key_c}", f"parameter {lab}: {b} -> {a}", rep)
                 return
         for label, exp in expected.items():
@@ -144,7 +144,7 @@ def check_combo(chk, c, seed_, recover):
                 for l in exp.coords["clp_label"].values:
                     got = float(clp.sel(spectral=x, clp_label=l))
                     want = float(exp.sel(spectral=x, clp_label=l))
-                    if abs(got - want) > 1e-7 * max(1.0, abs(want)):
+                    if not (abs(got - want) <= 1e-7 * max(1.0, abs(want))):      # NaN-safe
                         chk.violation(f"Combos[estimated clp]: {key_c}", f"{label} clp[{l}] at {x} = {got}, generating clp / dataset scale = {want}", rep)
                         return
         chk.traces += 1
